@@ -207,6 +207,36 @@ func init() {
 			}
 		}})
 
+	register(Suite{Name: "c19-redial", Property: "C19",
+		Rule: "a second DialWithContext on a Client that still holds its first connection (no Close in between), the first server answering a QUIT - should it get one - with 221, 502, 421 or by hanging up; second server behaving well or failing at a random step; whenever the second call returns an error, the connection IT opened must be closed; oracle only (what happens to the first connection is not part of the property)",
+		Run: func(c *Ctx) {
+			n := c.N(300, 10000)
+			for i := 0; i < n; i++ {
+				r := c.Rng
+				d1 := c07dims{policy: 2, auth: 0, host: 0, adv: 0, authList: 0}
+				sc := d1.scenario()
+				sc.Variant = 0
+				d2 := d1
+				sc.Redial = d2.scenario()
+				sc.RedialNoClose = true
+				oq := []SrvAction{{Kind: "ok"}, {Kind: "reply", Code: 502, Text: "5.5.1 not now"}, {Kind: "reply", Code: 421, Text: "4.3.0 busy"}, {Kind: "drop"}, {Kind: "garbage"}}[r.Intn(5)]
+				sc.OldQuit = &oq
+				if r.Chance(40) {
+					sc.Redial.Script[r.Intn(3)] = genFailAction(r)
+				}
+				run := RunDial(sc)
+				c.rep.OracleChecked++
+				if run.Panic != nil {
+					c.Violate("dial-panic", fmt.Sprintf("the client panicked / hung: %v", run.Panic), sc)
+					continue
+				}
+				c.Count(true, fmt.Sprint(i), fmt.Sprintf("oldquit=%s second-err=%v", oq.Kind, run.Second != nil && run.Second.Err != nil))
+				if run.Second != nil && run.Second.Err != nil && run.Second.Open {
+					c.Violate("c19-open-after-error", fmt.Sprintf("the second DialWithContext returned %v but the connection it opened is still open", run.Second.Err), sc)
+				}
+			}
+		}})
+
 	register(Suite{Name: "c19-dial", Property: "C19",
 		Rule: "DialWithContext with a failing reply (4yz, 5yz, garbage) or a disconnect at every step of the dial dialogue (greeting, EHLO, HELO fallback, STARTTLS, handshake, second EHLO, AUTH and every AUTH step), across TLS policies and auth types; the tracking connection must be closed whenever the call returns an error; traces compared with the model; distinct by scenario",
 		Run: func(c *Ctx) {
